@@ -30,7 +30,9 @@ void harness(void) {
 		CHECK(res == KSI_INVALID_ARGUMENT, HN " shrinking the cache is refused");
 		CHECK(c->options[KSI_ASYNC_OPT_REQUEST_CACHE_SIZE] == CACHE_S, HN " refused resize leaves the size unchanged");
 		c13_check_inv(c);
+#if NEW_N < CACHE_S - 1
 		WITNESS_POINT("shrink refused");
+#endif
 	} else {
 		CHECK(res == KSI_OK, HN " growing (or keeping) the cache size succeeds");
 		CHECK(c->options[KSI_ASYNC_OPT_REQUEST_CACHE_SIZE] == (size_t)NEW_N + 1 && c->reqCache != NULL, HN " new size installed (one reserved slot more than configured)");
@@ -41,7 +43,11 @@ void harness(void) {
 		}
 		CHECK(ok, HN " every cached handle keeps its slot, new slots are empty");
 		CHECK(c->reqCache[0] == NULL && c->tail >= 1 && c->tail < (size_t)NEW_N + 1 && c->requestCount < (size_t)NEW_N + 1, HN " reserved slot, scan position and cursor valid for the new size");
-		if (pre.nocc == CACHE_S - 1 && NEW_N > CACHE_S - 1) WITNESS_POINT("full cache grown");
+#if NEW_N > CACHE_S - 1
+		if (pre.nocc == CACHE_S - 1) WITNESS_POINT("full cache grown");
+#elif NEW_N == CACHE_S - 1
+		if (pre.nocc >= 1) WITNESS_POINT("same size set again");
+#endif
 	}
 	CHECK(c13_slots_unchanged(c, &pre, 0) && c13_conf_unchanged(c, &pre), HN " cached handles untouched by a resize");
 	CHECK(c->pending == pre.pending && c->received == pre.received && c->tail == pre.tail && c->requestCount == pre.requestCount && c->requestCountOffset == pre.offset, HN " counters, cursor, generation and scan position unchanged by a resize");
